@@ -28,8 +28,7 @@ struct aws_cross_process_lock *aws_cross_process_lock_try_acquire(
     struct aws_byte_cursor to_find = aws_byte_cursor_from_c_str("/");
     struct aws_byte_cursor found;
     AWS_ZERO_STRUCT(found);
-    if (aws_byte_cursor_find_exact(&instance_nonce, &to_find, &found) != AWS_OP_ERR &&
-        aws_last_error() != AWS_ERROR_STRING_MATCH_NOT_FOUND) {
+    if (aws_byte_cursor_find_exact(&instance_nonce, &to_find, &found) == AWS_OP_SUCCESS) {
         AWS_LOGF_ERROR(
             AWS_LS_COMMON_GENERAL,
             "static: Lock " PRInSTR "creation has illegal character /",
